@@ -67,7 +67,10 @@ CHECKS["C15"] = dict(
          "failed save, the historical write attempted after a failed highest write, compaction trimmed to the message's round), finding and observation traces are replayed on a real Validator + attester runner "
          "+ controller + ibft storage with full-state conformance after every step and monitors on real outputs; seeded "
          "executions generated on the real code are validated against ControllerTrace.tla (incl. injected write failures keyed by "
-         "write-attempt number in a fault-injecting basedb.Database wrapper).",
+         "write-attempt number in a fault-injecting basedb.Database wrapper). Failing / empty / undecodable storage READS at restart "
+         "(Validator.Start -> LoadHighestInstance, replayed through the real Validator.Start) and in InstanceForHeight are part of the "
+         "environment: the faithful model violates NoRerun / HighestMonotone there, the counterexamples reproduce on the real code "
+         "(three known findings), 'only-way-it-fails' properties bound the damage and a modelled repair restores the strict ones.",
     design_ref="DESIGN.md section 5 C15",
     note="One committee of 4, certificates {1,2,3}/{1,2,3,4}, one value per height; a crash may fall between calls and between the two writes of "
          "SaveInstance (each single db Set atomic); a db Set may also fail (error, nothing written; at most 2 per behaviour "
@@ -111,13 +114,17 @@ CHECKS["C03"] = dict(
          "(height check, re-validation, once-only reporting, message-id check removed, prevDecided read from the container, the "
          "pinned re-sign-after-eviction deviation) and seeded single-message-grain random executions are replayed on real runners "
          "of all five roles built with controller.NewController behind a real Validator.ProcessMessage; the monitor reads only the "
-         "key-manager spy.",
+         "key-manager spy. In the other direction 150 (quick) / 3 000 (thorough) seeded random executions recorded from the real "
+         "runners of every consensus role at single-call grain (not derived from TLC) are validated by the trace specification "
+         "RunnerTrace.tla, whose invariants restate C03 on every recorded validator-key signature; a failing invariant on a real "
+         "trace is a verdict, an unexplained event a divergence.",
     design_ref="DESIGN.md section 5 C03",
     note="QBFT deciding sequences and partial-signature quorums are macro steps in the spec (split in the random executions); heights 1..3, "
          "operator 1 of 4 (7 in part of the random runs); SignRoot signatures are not constrained; the reference ssv-spec value check is the "
          "oracle for 'passed the validity check'; the check first replays the pinned deviation's counterexample and generates covers "
          "from the variant (PrevDec code/fixed) the tree implements; fixed finding signed-twice-evicted-undecided (commit 15afa78ec).",
-    technique="TLA+ spec + TLC exhaustive check; state-graph cover, attack traces and random executions replayed on real runners with a key-manager spy",
+    technique="TLA+ spec + TLC exhaustive check; state-graph cover, attack traces and random executions replayed on real runners with a key-manager spy; "
+              "TLC trace validation of recorded executions of the real runners",
 )
 CHECKS["C05"] = dict(
     category="model_checking",
@@ -126,12 +133,16 @@ CHECKS["C05"] = dict(
          "members (wrong/mixed/duplicate/replaced shares, wrong root/slot/count, non-members) for 4 operators and selected faulty sets for 7, "
          "simulates 10 and 13 operators and 3 roots, checking SubmittedValid, AtMostOnce, NotPrevented. Covers, simulations, attack traces "
          "and random executions are replayed on real runners of all eight duty kinds with real threshold BLS; the oracle verifies every "
-         "Submit* signature under the validator key over the independently recomputed signing root and counts submissions per decided object.",
+         "Submit* signature under the validator key over the independently recomputed signing root and counts submissions per decided object. "
+         "Seeded random executions recorded from the real runners (all roles, committees 4-13, <= f Byzantine senders, duplicates, "
+         "replacements, wrong roots / slots / signer ids) are validated by the trace spec PartialSigTrace.tla, which carries the C05 "
+         "invariants over the logged inputs and outputs.",
     design_ref="DESIGN.md section 5 C05",
     note="'arrived' = handed to the runner after its instance decided; exhaustive only for the stated constants; the multi-root roots loop of the "
          "pinned commit is a named deviation (Algo=code) whose counterexample is the recorded finding submission-prevented-multiroot; the check "
          "detects which variant the tree implements.",
-    technique="TLA+ spec + TLC exhaustive check and simulation; state-graph cover, attack traces and random executions replayed on real runners with beacon-node spy and BLS verification",
+    technique="TLA+ spec + TLC exhaustive check and simulation; state-graph cover, attack traces and random executions replayed on real runners with beacon-node spy and BLS verification; "
+              "TLC trace validation of recorded executions",
 )
 CHECKS["C13"] = dict(
     category="model_checking",
